@@ -61,13 +61,45 @@ func c20R1(p *engine.Prog, r *engine.Report) {
 		return ok && f == "Hash"
 	}
 	gHas := hasGuards(ap, sameAsParHash)
-	emis := callsTo(ap, "protocol.PushPullManager.makeRequest")
+	// emission sites: makeRequest itself, or a same-type helper that hands one of its parameters to
+	// makeRequest as the hash (and may register the pull itself)
+	hashArgOf := map[ssa.CallInstruction]ssa.Value{}
+	regInside := map[ssa.CallInstruction]bool{}
+	var emis []ssa.CallInstruction
+	for _, c := range engine.Calls(ap) {
+		if engine.CallIs(c, "protocol.PushPullManager.makeRequest") {
+			emis = append(emis, c)
+			hashArgOf[c] = c.Common().Args[2]
+			continue
+		}
+		w := c.Common().StaticCallee()
+		if w == nil || w.Blocks == nil || w.Pkg != ap.Pkg || w == ap {
+			continue
+		}
+		for _, mc := range callsTo(w, "protocol.PushPullManager.makeRequest") {
+			for k, prm := range w.Params {
+				if isParam(mc.Common().Args[2], prm) && k < len(c.Common().Args) {
+					emis = append(emis, c)
+					hashArgOf[c] = c.Common().Args[k]
+					for _, b := range w.Blocks {
+						for _, ins := range b.Instrs {
+							if rc, ok := ins.(*ssa.Call); ok && rc.Call.IsInvoke() && rc.Call.Method.Name() == "RegisterPull" {
+								if f, okF := fieldOfParam(rc.Call.Args[0], prm); okF && f == "Hash" && engine.InstrDominates(mc, rc) {
+									regInside[c] = true
+								}
+							}
+						}
+					}
+				}
+			}
+		}
+	}
 	sort.Slice(emis, func(i, j int) bool { return emis[i].Pos() < emis[j].Pos() })
 	for i, c := range emis {
-		okArg := isParam(c.Common().Args[2], hashPar)
+		okArg := isParam(hashArgOf[c], hashPar)
 		r.Check(len(gHas) > 0 && okArg && engine.OnlyThroughPass(ap, c.Block(), gHas), "C20-R1", fmt.Sprintf("addPush|emission #%d only for an item the holder lacks", i+1), p.InstrPos(c), "behind !holder.Has(hash.Hash), requests the announced hash", "a pull request is emitted for an item that is already stored (or for another hash than the announced one)")
 		// paired with RegisterPull on the same hash, when the holder supports pending requests
-		paired := false
+		paired := regInside[c]
 		for _, b := range ap.Blocks {
 			for _, ins := range b.Instrs {
 				rc, ok := ins.(*ssa.Call)
